@@ -1,111 +1,144 @@
 #!/venv/bin/python
-"""Differential test: Lean model `Jaqal.Emulator` (ops `apply_gate`, `run_gates`) against the real
-`jaqalpaq.emulator.unitary.UnitarySerializedEmulator`.
+"""C03 — emulator state vector: Lean model vs real code, plus direct oracles on the real code.
 
-Real circuits are built from Jaqal text with an injected gate set whose matrices have Gaussian-dyadic
-entries only, so IEEE double arithmetic is exact and state vectors are compared EXACTLY.
-Only direct register references `r[i]` are used (the Python reads `val.alias_index`).
+Importable as `harness.agents.emu_diff` (PYTHONPATH=/verif) and runnable as a CLI:
 
-Usage:  /venv/bin/python /verif/harness/agents/emu_diff.py [--driver PATH] [--count N] [--seed S] [--thorough]
+    PYTHONPATH=/verif /venv/bin/python -m harness.agents.emu_diff [--seed S] [--count N] [--driver PATH] [--thorough]
+    /venv/bin/python /verif/harness/agents/emu_diff.py ...            (same thing)
 
-`--driver` is a line-protocol executable that knows the ops in `JaqalModel/Model/EmulatorOps.lean`
-(default: /verif/lean/.lake/build/bin/jaqal-model once the integrator has wired `Jaqal.Emulator.ops`
-into `Main.lean`).
-Exit status 0 iff no mismatch.
+`run(seed, n, driver, thorough) -> dict` and `replay(case, driver) -> dict` follow the "Diff-script protocol"
+of /verif/notes/AGENT_CONVENTIONS.md.
+
+Correspondence (`corr`), Lean model `Jaqal.Emulator` (ops `run_gates`, `apply_gate`) against the real code:
+  * run_gates            – whole subcircuits through the REAL pipeline `run_jaqal_circuit` (macros, lets, alias
+                           chains, subcircuit blocks, loops, parallel blocks); exact comparison of `state_vector`
+                           (Gaussian-dyadic matrices only, IEEE arithmetic is exact) and probabilities to 1e-12.
+  * apply_gate           – single step: v_in / v_out taken from the real emulator (prefix / prefix+gate).
+  * run_gates_irregular  – inputs outside the hypotheses of the theorems that the code nevertheless accepts:
+                           duplicated qubit arguments, a matrix larger than 2^|qubits| (silently accepted), a matrix
+                           that is too small (IndexError ↔ model `null`), a non-unitary matrix.
+
+Direct oracles (`oracle`), property C03 evaluated on the real code alone:
+  * kron_reference            – state_vector == U_k … U_1 e0, every U_j applied with numpy `tensordot` on the axes of
+                                its argument qubits (bit j of the gate index ↔ j-th argument, bit i of the state index
+                                ↔ register qubit i), exact comparison.
+  * alias_same_as_direct      – the program with alias chains / let-valued bounds / let-sized register / macros gives
+                                the same states as the flat program written on `r[i]` directly.
+  * idle_and_no_unitary_noop  – removing idle gates (`add_idle_gates`) and gates without a unitary changes nothing.
+  * parallel_order            – permuting the branches of parallel blocks (disjoint qubits) changes nothing.
+  * let_override              – `parse_jaqal_string(..., override_dict=ov, expand_let=True)` and `fill_in_let(c, ov)`
+                                make run_jaqal_circuit use the overriding values (integer phase argument of P/PF, loop
+                                counts): same states as the program with the overriding values written in the lets.
 """
-import argparse, itertools, json, os, random, subprocess, sys, warnings
+import argparse
+import itertools
+import json
+import os
+import random
+import subprocess
+import sys
+import warnings
 
-os.environ.setdefault("JAQALPAQ_RUN_EMULATOR", "1")
 import numpy as np
+
+try:
+    from harness import gates as HG
+except ImportError:  # run as a plain script
+    sys.path.insert(0, os.path.dirname(os.path.dirname(os.path.dirname(os.path.abspath(__file__)))))
+    from harness import gates as HG
+
 from jaqalpaq.core import GateDefinition, Parameter, ParamType
-from jaqalpaq.core.gatedef import BusyGateDefinition
+from jaqalpaq.core.gatedef import add_idle_gates
+from jaqalpaq.core.algorithm import fill_in_let
+from jaqalpaq.core.result import ProbabilisticSubcircuit
 from jaqalpaq.parser import parse_jaqal_string
 from jaqalpaq.emulator.unitary import UnitarySerializedEmulator
-from jaqalpaq.core.result import ProbabilisticSubcircuit
 
-# The subcircuit constructor raises RuntimeError when the probabilities do not sum to 1 (non-unitary
-# matrix, duplicated qubit arguments).  The loop nest under test has already run by then; lift the
-# threshold (a class attribute, nothing in /repo is edited) so that the state vector can be read back.
-ProbabilisticSubcircuit.CUTOFF_FAIL = float("inf")
-
-Q = ParamType.QUBIT
-I = ParamType.INT
+DEFAULT_DRIVER = "/verif/lean/.lake/build/bin/jaqal-model"
+Q, I = ParamType.QUBIT, ParamType.INT
 
 
-# ---------------------------------------------------------------- gate set (Gaussian dyadic entries)
-def M(rows):
-    return np.array(rows, dtype=complex)
-
-
-def perm(n, f, phase=lambda i: 1):
-    """column i -> row f(i) with phase"""
-    m = np.zeros((n, n), dtype=complex)
-    for i in range(n):
+# ------------------------------------------------------------------ gate set: shared set + extras
+def _perm(d, f, phase=lambda i: 1):
+    m = np.zeros((d, d), dtype=complex)
+    for i in range(d):
         m[f(i), i] = phase(i)
     return m
 
 
-def u_X(): return M([[0, 1], [1, 0]])
-def u_Y(): return M([[0, -1j], [1j, 0]])
-def u_Z(): return M([[1, 0], [0, -1]])
-def u_S(): return M([[1, 0], [0, 1j]])
-def u_SX(): return M([[1 + 1j, 1 - 1j], [1 - 1j, 1 + 1j]]) / 2
-def u_HH():
-    h = M([[1, 1], [1, -1]])
-    return np.kron(h, h) / 2
-def u_CX():  # control = arg0 = bit0, target = arg1 = bit1
-    return perm(4, lambda i: (i & 1) | ((((i >> 1) ^ i) & 1) << 1))
-def u_CZ(): return np.diag([1, 1, 1, -1]).astype(complex)
-def u_SWAP(): return perm(4, lambda i: ((i & 1) << 1) | (i >> 1))
-def u_ISWAP(): return perm(4, lambda i: ((i & 1) << 1) | (i >> 1), lambda i: 1j if i in (1, 2) else 1)
-def u_CCX(): return perm(8, lambda i: (i & 3) | ((((i >> 2) ^ ((i & 1) & (i >> 1))) & 1) << 2))
-def u_ASYM2():  # non-symmetric: 4-cycle with phases 1, i, -1, -i
-    return perm(4, lambda i: (i + 1) % 4, lambda i: [1, 1j, -1, -1j][i])
-def u_MIX2():  # non-symmetric, dense: (SX on bit0) then ASYM2
-    return u_ASYM2() @ np.kron(np.eye(2), u_SX())
-def u_PERM3(): return perm(8, lambda i: [3, 0, 6, 1, 7, 2, 5, 4][i])
-def u_MIX3(): return u_PERM3() @ np.kron(u_HH(), u_S())
-def u_P(k): return M([[1, 0], [0, 1j ** (k % 4)]])
-def u_CP(k): return np.diag([1, 1, 1, [1, 1j, -1, -1j][k % 4]]).astype(complex)
-# matrices whose size does not match the number of qubit arguments (the Python never checks)
-def u_RND2():  # NOT unitary (the loop nest does not care)
-    return M([[1, 0, 1j, 0], [0, 1, 0, -1], [1j, 1, 0, 0], [0, 0, 1, 1j]])
-def u_BIG1(): return perm(4, lambda i: (i - 1) % 4)   # rows 0,1 act like X on one qubit
-def u_SMALL2(): return u_X()                           # IndexError as soon as dsub_row >= 2
-
-GATES = {}
-ARITY = {}      # name -> list of 'q' / 'i' in declaration order
-UNITARY = {}
+def U_ASYM2():  # non-symmetric: 4-cycle with phases 1, i, -1, -i
+    return _perm(4, lambda i: (i + 1) % 4, lambda i: [1, 1j, -1, -1j][i])
 
 
-def add(name, sig, u):
-    params = [Parameter(f"p{k}", Q if s == "q" else I) for k, s in enumerate(sig)]
-    GATES[name] = GateDefinition(name, params, ideal_unitary=u)
-    ARITY[name] = sig
-    UNITARY[name] = u
+def U_MIX2():  # non-symmetric and dense
+    return U_ASYM2() @ np.kron(np.eye(2), HG.U_SX())
 
 
-for nm in ["X", "Y", "Z", "S", "SX"]:
-    add(nm, "q", globals()["u_" + nm])
-for nm in ["HH", "CX", "CZ", "SWAP", "ISWAP", "ASYM2", "MIX2", "RND2"]:
-    add(nm, "qq", globals()["u_" + nm])
-for nm in ["CCX", "PERM3", "MIX3"]:
-    add(nm, "qqq", globals()["u_" + nm])
-add("P", "qi", u_P)
-add("CP", "qiq", u_CP)      # classical parameter between the two qubit arguments
-add("N", "q", None)         # no unitary: skipped
-add("N2", "qq", None)
-add("BIG1", "q", u_BIG1)
-add("SMALL2", "qq", u_SMALL2)
-GATES["prepare_all"] = BusyGateDefinition("prepare_all", [])
-GATES["measure_all"] = BusyGateDefinition("measure_all", [])
-
-NORMAL = [g for g in ARITY if g not in ("BIG1", "SMALL2")]
+def U_PERM3():
+    return _perm(8, lambda i: [3, 0, 6, 1, 7, 2, 5, 4][i])
 
 
-# ---------------------------------------------------------------- exact conversion
-def dyad(x):
-    """float -> (num, k) with x = num / 2^k exactly"""
+def U_MIX3():
+    return U_PERM3() @ np.kron(HG.U_HH(), HG.U_S())
+
+
+def U_CP(k):  # classical parameter BETWEEN the two qubit arguments
+    return np.diag([1, 1, 1, [1, 1j, -1, -1j][int(k) % 4]]).astype(complex)
+
+
+# irregular matrices (outside the hypotheses of the theorems; the code never checks)
+def U_RND2():  # not unitary
+    return np.array([[1, 0, 1j, 0], [0, 1, 0, -1], [1j, 1, 0, 0], [0, 0, 1, 1j]], dtype=complex)
+
+
+def U_BIG1():  # 4x4 matrix for ONE qubit: rows 0,1 act like X
+    return _perm(4, lambda i: (i - 1) % 4)
+
+
+def U_SMALL2():  # 2x2 matrix for TWO qubits: IndexError as soon as dsub_row >= 2
+    return HG.U_X()
+
+
+def _make_gates():
+    G = dict(HG.GATES)
+    sig = dict(HG.SIG)
+
+    def add(name, s, u):
+        G[name] = GateDefinition(name, [Parameter(f"p{k}", Q if c == "q" else I) for k, c in enumerate(s)], ideal_unitary=u)
+        sig[name] = s
+
+    add("ASYM2", "qq", U_ASYM2)
+    add("MIX2", "qq", U_MIX2)
+    add("PERM3", "qqq", U_PERM3)
+    add("MIX3", "qqq", U_MIX3)
+    add("CP", "qiq", U_CP)
+    add("N2", "qq", None)
+    add("RND2", "qq", U_RND2)
+    add("BIG1", "q", U_BIG1)
+    add("SMALL2", "qq", U_SMALL2)
+    return G, sig
+
+
+GATES, SIG = _make_gates()
+GATES_IDLE = add_idle_gates(GATES)
+IRREGULAR = ["RND2", "BIG1", "SMALL2"]
+NOUNITARY = ["N", "N2"]
+REGULAR = [g for g in SIG if g not in IRREGULAR and g not in NOUNITARY]
+IDLE = ["I_" + g for g in REGULAR]
+
+
+def gate_unitary(name, ints):
+    """The matrix the emulator will use (None: skipped)."""
+    d = GATES_IDLE[name]
+    return None if d.ideal_unitary is None else np.asarray(d.ideal_unitary(*ints))
+
+
+def base_sig(name):
+    return SIG[name[2:]] if name.startswith("I_") else SIG[name]
+
+
+# ------------------------------------------------------------------ exact conversion
+def _dyad(x):
     num, den = float(x).as_integer_ratio()
     k = den.bit_length() - 1
     assert den == 1 << k
@@ -113,249 +146,709 @@ def dyad(x):
 
 
 def gd(z):
-    """complex -> normalised [re, im, k]"""
     z = complex(z)
-    (a, ka), (b, kb) = dyad(z.real), dyad(z.imag)
+    (a, ka), (b, kb) = _dyad(z.real), _dyad(z.imag)
     k = max(ka, kb)
     a <<= k - ka
     b <<= k - kb
     while k > 0 and a % 2 == 0 and b % 2 == 0:
-        a //= 2; b //= 2; k -= 1
-    return [a, b, k]
+        a //= 2
+        b //= 2
+        k -= 1
+    return [str(a), str(b), str(k)]
 
 
-def gd_json(z):
-    return [str(t) for t in gd(z)]
+def vec_json(v):
+    return [gd(z) for z in v]
 
 
 def mat_json(m):
-    return [[gd_json(z) for z in row] for row in m]
+    return [[gd(z) for z in row] for row in m]
 
 
-# ---------------------------------------------------------------- program generation
-class Inst:
-    def __init__(self, name, qubits, ints):
-        self.name, self.qubits, self.ints = name, qubits, ints
-
-    def text(self):
-        qs, it = iter(self.qubits), iter(self.ints)
-        args = [f"r[{next(qs)}]" if s == "q" else str(next(it)) for s in ARITY[self.name]]
-        return " ".join([self.name] + args)
-
-    def model(self):
-        u = UNITARY[self.name]
-        return {"U": None if u is None else mat_json(u(*self.ints)), "qs": self.qubits}
+# ------------------------------------------------------------------ real code
+def _env():
+    os.environ["JAQALPAQ_RUN_EMULATOR"] = "1"
 
 
-def rand_inst(rng, n, names, allow_dup=False, avoid=()):
-    for _ in range(100):
-        name = rng.choice(names)
-        nq = ARITY[name].count("q")
-        pool = [q for q in range(n) if q not in avoid]
-        if allow_dup and pool:
-            qubits = [rng.choice(pool) for _ in range(nq)]
-        elif nq <= len(pool):
-            qubits = rng.sample(pool, nq)
+def run_pipeline(text, ov=None, ov_mode=None):
+    """The real pipeline: parse → run_jaqal_circuit (expand_subcircuits, fill_in_let, expand_macros, emulator).
+    Returns [(state_vector, probabilities)] per subcircuit."""
+    _env()
+    from jaqalpaq.run import run_jaqal_circuit
+
+    with warnings.catch_warnings():
+        warnings.simplefilter("ignore")
+        if ov_mode == "parse":
+            c = parse_jaqal_string(text, override_dict=ov, expand_let=True, inject_pulses=GATES_IDLE, autoload_pulses=False)
         else:
+            c = parse_jaqal_string(text, inject_pulses=GATES_IDLE, autoload_pulses=False)
+            if ov_mode == "fill":
+                c = fill_in_let(c, override_dict=ov)
+        res = run_jaqal_circuit(c)
+    return [(np.array(sc.state_vector), np.array(sc.simulated_probability_by_int)) for sc in res.subcircuits]
+
+
+def run_emulator_raw(text):
+    """Emulator job without sampling and with the probability-sum check lifted (irregular inputs leave the state
+    non-normalised; the loop nest under test has already run when `ProbabilisticSubcircuit` complains).
+    Returns the list of state vectors, or the string 'IndexError'."""
+    _env()
+    old = ProbabilisticSubcircuit.CUTOFF_FAIL
+    ProbabilisticSubcircuit.CUTOFF_FAIL = float("inf")
+    try:
+        with warnings.catch_warnings(), np.errstate(all="ignore"):
+            warnings.simplefilter("ignore")
+            c = parse_jaqal_string(text, inject_pulses=GATES_IDLE, autoload_pulses=False)
+            try:
+                job = UnitarySerializedEmulator()(c)
+            except IndexError:
+                return "IndexError"
+            return [np.array(sc.state_vector) for sc in job.subcircuits]
+    finally:
+        ProbabilisticSubcircuit.CUTOFF_FAIL = old
+
+
+def kron_reference(n, sub):
+    """U_k … U_1 e0 with numpy tensors: axis (n-1-q) of the state tensor is register qubit q; bit j of a gate
+    index is its j-th qubit argument."""
+    psi = np.zeros((2,) * n, dtype=complex) if n else np.zeros((), dtype=complex)
+    psi[(0,) * n] = 1
+    for g in sub:
+        u = gate_unitary(g["g"], g["a"])
+        if u is None:
             continue
-        ints = [rng.randrange(0, 8) for s in ARITY[name] if s == "i"]
-        return Inst(name, qubits, ints)
-    return None
+        qs = g["qs"]
+        m = len(qs)
+        t = u.reshape((2,) * (2 * m))  # axes: row bits m-1..0, column bits m-1..0
+        col_axes = [m + (m - 1 - j) for j in range(m)]  # column bit j
+        psi_axes = [n - 1 - qs[j] for j in range(m)]  # qubit qs[j]
+        out = np.tensordot(t, psi, axes=(col_axes, psi_axes))
+        # out axes: row bits m-1..0, then the untouched axes of psi in order; put row bit j on the axis of qs[j]
+        out = np.moveaxis(out, [m - 1 - j for j in range(m)], psi_axes)
+        psi = out
+    return psi.reshape(-1)
 
 
-def rand_body(rng, n, length, names, dup_rate):
-    """returns (list of text lines, serialised list of Inst)"""
-    lines, ser = [], []
-    while len(ser) < length:
+# ------------------------------------------------------------------ program generator
+class Prog:
+    """A random program: header facts + structured body items + everything needed to render / serialise.
+
+    item kinds
+      ("gate", name, [qubit], [int], noop)          qubit: int | ("p", j)   int: int | let-name | ("p", j)
+      ("call", macro-name, [qubit], [int])
+      ("loop", count, [item])                       count: int | let-name
+      ("par", [branch])                             branch: [item] (rendered bare when a single item)
+      ("seq", [item])
+    """
+
+    def __init__(self, rng, n, nsub, maxlen, feat):
+        self.rng, self.n, self.feat = rng, n, feat
+        self.lets = {}  # name -> int
+        self.maps = []  # (name, text-spec, [register index] or int for single)
+        self.macros = {}  # name -> (nq, ni, [item])
+        self.let_sized = rng.random() < 0.5
+        self.lets["NQ"] = n
+        for k in range(3):
+            self.lets[f"K{k}"] = rng.randrange(8)
+        for k in range(2):
+            self.lets[f"L{k}"] = rng.randrange(4)
+        for t in rng.sample(range(n), min(n, 2)):
+            self.lets[f"T{t}"] = t
+        self._gen_maps()
+        self._gen_macros()
+        self.subs = []  # (style, [item])
+        for _ in range(nsub):
+            style = rng.choice(["plain", "block", "blockN"])
+            self.subs.append((style, self._gen_items(rng.randint(0, maxlen), depth=0)))
+
+    # ---- header
+    def _bound(self, v):
+        """a slice bound / index, literal or let-valued"""
+        names = [k for k, x in self.lets.items() if x == v and k[0] in "TN"]
+        if names and self.rng.random() < 0.5:
+            return self.rng.choice(names)
+        return str(v)
+
+    def _gen_maps(self):
+        rng, n = self.rng, self.n
+        arrays = [("r", list(range(n)))]
+        for name in ["a", "b", "c"]:
+            if rng.random() < 0.7:
+                src, res = rng.choice(arrays)
+                if rng.random() < 0.2:
+                    self.maps.append((name, f"map {name} {src}", list(res)))
+                    arrays.append((name, list(res)))
+                    continue
+                L = len(res)
+                lo = rng.randrange(L)
+                hi = rng.randint(lo + 1, L)
+                st = rng.choice([1, 1, 2])
+                sub = res[lo:hi:st]
+                spec = f"{self._bound(lo)}:{self._bound(hi)}" + (f":{st}" if st != 1 or rng.random() < 0.3 else "")
+                self.maps.append((name, f"map {name} {src}[{spec}]", sub))
+                arrays.append((name, sub))
+        self.arrays = arrays
+        self.singles = []
+        for name in ["q", "p"]:
+            if rng.random() < 0.6:
+                src, res = rng.choice(arrays)
+                k = rng.randrange(len(res))
+                self.maps.append((name, f"map {name} {src}[{self._bound(k)}]", res[k]))
+                self.singles.append((name, res[k]))
+
+    def _gen_macros(self):
+        rng = self.rng
+        for name in ["MA", "MB"]:
+            if rng.random() < 0.6:
+                nq = rng.randint(1, min(3, self.n))
+                ni = rng.randint(0, 1)
+                body = []
+                for _ in range(rng.randint(1, 3)):
+                    if self.macros and rng.random() < 0.3:
+                        mn = rng.choice(list(self.macros))
+                        mq, mi, _ = self.macros[mn]
+                        if mq <= nq:
+                            qs = [("p", j) for j in rng.sample(range(nq), mq)]
+                            ints = [(("p", nq) if ni and rng.random() < 0.5 else rng.randrange(8)) for _ in range(mi)]
+                            body.append(("call", mn, qs, ints))
+                            continue
+                    g = rng.choice([x for x in REGULAR if base_sig(x).count("q") <= nq])
+                    s = base_sig(g)
+                    qs = [("p", j) for j in rng.sample(range(nq), s.count("q"))]
+                    ints = [(("p", nq) if ni and rng.random() < 0.6 else self._int_arg()) for _ in range(s.count("i"))]
+                    body.append(("gate", g, qs, ints, False))
+                self.macros[name] = (nq, ni, body)
+
+    def _int_arg(self):
+        if self.rng.random() < 0.5:
+            return self.rng.choice(["K0", "K1", "K2"])
+        return self.rng.randrange(8)
+
+    # ---- body
+    def _gen_gate(self, pool, maxq=3):
+        rng = self.rng
         r = rng.random()
-        if r < 0.12 and n >= 2:
-            # parallel block over disjoint qubits: any interleaving gives the same state (C03_embed_comm)
-            used, branch = set(), []
-            for _ in range(rng.randint(2, 3)):
-                g = rand_inst(rng, n, [x for x in names if ARITY[x].count("q") <= 2], avoid=used)
-                if g is None:
-                    break
-                used.update(g.qubits)
-                branch.append(g)
-            if len(branch) >= 2:
-                lines.append("< " + " | ".join(g.text() for g in branch) + " >")
-                ser.extend(branch)
-                continue
-        if r < 0.2:
-            cnt = rng.randint(0, 3)
-            inner = [rand_inst(rng, n, names) for _ in range(rng.randint(1, 2))]
-            inner = [g for g in inner if g is not None]
-            if inner:
-                lines.append(f"loop {cnt} {{ " + " ; ".join(g.text() for g in inner) + " }")
-                ser.extend(inner * cnt)
-                continue
-        g = rand_inst(rng, n, names, allow_dup=rng.random() < dup_rate)
-        if g is not None:
-            lines.append(g.text())
-            ser.append(g)
-    return lines, ser
+        if r < 0.10:
+            names, noop = IDLE, True
+        elif r < 0.17:
+            names, noop = NOUNITARY, True
+        else:
+            names, noop = REGULAR, False
+        names = [g for g in names if base_sig(g).count("q") <= min(len(pool), maxq)]
+        if not names:
+            return None
+        g = rng.choice(names)
+        s = base_sig(g)
+        qs = rng.sample(pool, s.count("q"))
+        ints = [self._int_arg() for _ in range(s.count("i"))]
+        return ("gate", g, qs, ints, noop)
+
+    def _gen_call(self, pool):
+        rng = self.rng
+        ms = [m for m, (nq, _, _) in self.macros.items() if nq <= len(pool)]
+        if not ms:
+            return None
+        m = rng.choice(ms)
+        nq, ni, _ = self.macros[m]
+        return ("call", m, rng.sample(pool, nq), [self._int_arg() for _ in range(ni)])
+
+    def _gen_simple(self, pool):
+        if self.rng.random() < 0.2:
+            c = self._gen_call(pool)
+            if c:
+                return c
+        return self._gen_gate(pool)
+
+    def _gen_items(self, length, depth):
+        rng, n = self.rng, self.n
+        items = []
+        allq = list(range(n))
+        while len(items) < length:
+            r = rng.random()
+            if r < 0.15 and n >= 2:
+                parts = list(allq)
+                rng.shuffle(parts)
+                nb = rng.randint(2, min(3, n))
+                cuts = sorted(rng.sample(range(1, n), nb - 1))
+                pools = [parts[a:b] for a, b in zip([0] + cuts, cuts + [n])]
+                branches = []
+                for pool in pools:
+                    br = [x for x in (self._gen_simple(pool) for _ in range(rng.choice([1, 1, 2]))) if x]
+                    # a branch must contain at least one real gate so that it survives the removal of no-ops
+                    if not any(not (x[0] == "gate" and x[4]) for x in br):
+                        g = None
+                        while g is None or g[4]:
+                            g = self._gen_gate(pool)
+                        br.append(g)
+                    branches.append(br)
+                items.append(("par", branches))
+                self.feat["par"] += 1
+            elif r < 0.27 and depth < 2:
+                cnt = rng.choice(["L0", "L1"]) if rng.random() < 0.5 else rng.randint(0, 3)
+                body = self._gen_items(rng.randint(1, 3), depth + 1)
+                if not any(not (x[0] == "gate" and x[4]) for x in body):
+                    g = None
+                    while g is None or g[4]:
+                        g = self._gen_gate(allq)
+                    body.append(g)
+                items.append(("loop", cnt, body))
+                self.feat["loop"] += 1
+            elif r < 0.32 and depth < 2:
+                body = self._gen_items(rng.randint(1, 3), depth + 1)
+                if any(not (x[0] == "gate" and x[4]) for x in body):
+                    items.append(("seq", body))
+            else:
+                x = self._gen_simple(allq)
+                if x:
+                    items.append(x)
+        return items
+
+    # ---- serialise: the executed gate list [{"g","qs","a"}] (idle / no-unitary gates included)
+    def serialise_items(self, items, vals, qenv=None, ienv=None, perm=False):
+        out = []
+        for it in items:
+            k = it[0]
+            if k == "gate":
+                _, g, qs, ints, _ = it
+                out.append({"g": g, "qs": [self._rq(q, qenv) for q in qs], "a": [self._ri(a, vals, ienv) for a in ints]})
+            elif k == "call":
+                _, m, qs, ints = it
+                nq, ni, body = self.macros[m]
+                q2 = [self._rq(q, qenv) for q in qs]
+                i2 = [self._ri(a, vals, ienv) for a in ints]
+                out.extend(self.serialise_items(body, vals, q2, {nq + j: v for j, v in enumerate(i2)}))
+            elif k == "loop":
+                out.extend(self.serialise_items(it[2], vals, qenv, ienv) * self._ri(it[1], vals, ienv))
+            elif k == "par":
+                for br in it[1]:
+                    out.extend(self.serialise_items(br, vals, qenv, ienv))
+            elif k == "seq":
+                out.extend(self.serialise_items(it[1], vals, qenv, ienv))
+        return out
+
+    @staticmethod
+    def _rq(q, qenv):
+        return qenv[q[1]] if isinstance(q, tuple) else q
+
+    @staticmethod
+    def _ri(a, vals, ienv):
+        if isinstance(a, tuple):
+            return ienv[a[1]]
+        return vals[a] if isinstance(a, str) else a
+
+    def serialise(self, vals=None):
+        vals = dict(self.lets, **(vals or {}))
+        return [self.serialise_items(items, vals) for _, items in self.subs]
+
+    # ---- render
+    def _qref(self, q, rng, pnames):
+        if isinstance(q, tuple):
+            return pnames[q[1]]
+        forms = [f"r[{q}]"]
+        if f"T{q}" in self.lets:
+            forms.append(f"r[T{q}]")
+        for name, res in self.arrays[1:]:
+            for pos, t in enumerate(res):
+                if t == q:
+                    forms.append(f"{name}[{pos}]")
+        for name, t in self.singles:
+            if t == q:
+                forms.append(name)
+        if len(forms) > 1 and rng.random() < 0.8:
+            f = rng.choice(forms[1:])
+            self.feat["alias_ref"] += 1
+            return f
+        return forms[0]
+
+    def _iref(self, a, pnames):
+        return pnames[a[1]] if isinstance(a, tuple) else str(a)
+
+    def _rgate(self, name, qs, ints, rng, pnames):
+        qi, ii = iter(qs), iter(ints)
+        args = [self._qref(next(qi), rng, pnames) if c == "q" else self._iref(next(ii), pnames) for c in base_sig(name)]
+        return " ".join([name] + args)
+
+    def render_items(self, items, rng, noop=True, permute=False, pnames=None):
+        out = []
+        for it in items:
+            k = it[0]
+            if k == "gate":
+                if it[4] and not noop:
+                    continue
+                out.append(self._rgate(it[1], it[2], it[3], rng, pnames))
+            elif k == "call":
+                nq, ni, _ = self.macros[it[1]]
+                args = [self._qref(q, rng, pnames) for q in it[2]] + [self._iref(a, pnames) for a in it[3]]
+                out.append(" ".join([it[1]] + args))
+            elif k == "loop":
+                out.append(f"loop {it[1]} {{ " + " ; ".join(self.render_items(it[2], rng, noop, permute, pnames)) + " }")
+            elif k == "seq":
+                out.append("{ " + " ; ".join(self.render_items(it[1], rng, noop, permute, pnames)) + " }")
+            elif k == "par":
+                brs = []
+                for br in it[1]:
+                    parts = self.render_items(br, rng, noop, permute, pnames)
+                    brs.append(parts[0] if len(parts) == 1 else "{ " + " ; ".join(parts) + " }")
+                if permute:
+                    rng.shuffle(brs)
+                out.append("< " + " | ".join(brs) + " >")
+        return out
+
+    def header(self, vals=None):
+        vals = dict(self.lets, **(vals or {}))
+        out = [f"let {k} {v}" for k, v in vals.items()]
+        out.append("register r[NQ]" if self.let_sized else f"register r[{self.n}]")
+        out.extend(spec for _, spec, _ in self.maps)
+        for name, (nq, ni, body) in self.macros.items():
+            pn = [f"x{j}" for j in range(nq)] + [f"k{j}" for j in range(ni)]
+            rr = random.Random(0)  # macro bodies only use parameters / literals / lets: no surface choice
+            out.append(f"macro {name} " + " ".join(pn) + " { " + " ; ".join(self.render_items(body, rr, True, False, pn)) + " }")
+        return out
+
+    def render(self, seed, noop=True, permute=False, vals=None):
+        """Aliased rendering. `seed` fixes the surface choices (alias forms, branch order)."""
+        rng = random.Random(seed)
+        out = self.header(vals)
+        for style, items in self.subs:
+            body = self.render_items(items, rng, noop, permute)
+            if style == "plain":
+                out += ["prepare_all"] + body + ["measure_all"]
+            elif style == "block":
+                out += ["subcircuit {"] + body + ["}"]
+            else:
+                out += ["subcircuit 3 {"] + body + ["}"]
+            self.feat["sub_" + style] += 1
+        return "\n".join(out) + "\n"
 
 
-def make_program(n, bodies):
+def flat_text(n, subs, drop_noop=False):
+    """The direct program: every gate on `r[i]`, literal numbers, no lets / maps / macros / blocks."""
     out = [f"register r[{n}]"]
-    for lines in bodies:
+    for sub in subs:
         out.append("prepare_all")
-        out.extend(lines)
+        for g in sub:
+            if drop_noop and gate_unitary(g["g"], g["a"]) is None:
+                continue
+            qi, ii = iter(g["qs"]), iter(g["a"])
+            out.append(" ".join([g["g"]] + [f"r[{next(qi)}]" if c == "q" else str(next(ii)) for c in base_sig(g["g"])]))
         out.append("measure_all")
     return "\n".join(out) + "\n"
 
 
-def run_python(text):
-    """-> list of (state_vector, probabilities) per subcircuit, or the exception"""
-    circ = parse_jaqal_string(text, inject_pulses=GATES, autoload_pulses=False)
-    try:
-        with warnings.catch_warnings():
-            warnings.simplefilter("ignore")
-            # the state vectors are computed when the job is built; `.execute()` would only sample readouts
-            job = UnitarySerializedEmulator()(circ)
-    except IndexError as e:
-        return e
-    return [(np.array(sc.state_vector), np.array(sc.simulated_probability_by_int)) for sc in job.subcircuits]
+def model_gates(sub):
+    out = []
+    for g in sub:
+        u = gate_unitary(g["g"], g["a"])
+        out.append({"U": None if u is None else mat_json(u), "qs": g["qs"]})
+    return out
 
 
-# ---------------------------------------------------------------- driver
+# ------------------------------------------------------------------ driver
 def call_driver(driver, reqs):
-    inp = "\n".join(json.dumps(r) for r in reqs) + "\n"
-    p = subprocess.run([driver], input=inp, capture_output=True, text=True, check=True)
+    if not reqs:
+        return []
+    inp = "\n".join(json.dumps(r, separators=(",", ":")) for r in reqs) + "\n"
+    p = subprocess.run([driver], input=inp, capture_output=True, text=True)
     outs = [json.loads(l) for l in p.stdout.splitlines() if l.strip()]
-    assert len(outs) == len(reqs), (len(outs), len(reqs), p.stderr[:500])
-    return outs
+    if len(outs) != len(reqs):
+        raise RuntimeError(f"driver returned {len(outs)} lines for {len(reqs)} requests; rc={p.returncode}; {p.stderr[:500]}")
+    return [o["out"] if "out" in o else {"driver_error": o.get("err")} for o in outs]
 
 
-def main():
-    ap = argparse.ArgumentParser()
-    ap.add_argument("--driver", default="/verif/lean/.lake/build/bin/jaqal-model")
-    ap.add_argument("--count", type=int, default=1500, help="number of random programs")
-    ap.add_argument("--seed", type=int, default=20260923)
-    ap.add_argument("--thorough", action="store_true", help="all qubit tuples for every gate up to n = 6")
-    a = ap.parse_args()
-    rng = random.Random(a.seed)
+# ------------------------------------------------------------------ single-case evaluation (shared by run / replay)
+def impl_run(case):
+    """impl JSON of a `run` / `irregular` case: per subcircuit the state vector (or "IndexError")."""
+    if case["kind"] == "irregular":
+        r = run_emulator_raw(case["text"])
+        return r if isinstance(r, str) else [vec_json(v) for v in r]
+    return [vec_json(v) for v, _ in run_pipeline(case["text"])]
 
-    reqs, expect, descr = [], [], []
 
-    def expect_run(n, ser, py):
-        """py = (vec, probs) from Python or 'error'"""
-        reqs.append({"op": "run_gates", "n": n, "gates": [g.model() for g in ser]})
-        expect.append(("run", py))
+def model_reqs(case):
+    if case["kind"] == "apply":
+        g = model_gates([case["gate"]])[0]
+        return [{"op": "apply_gate", "n": case["n"], "qs": g["qs"], "U": g["U"], "v": case["vin"]}]
+    return [{"op": "run_gates", "n": case["n"], "gates": model_gates(sub)} for sub in case["subs"]]
 
-    def expect_apply(n, g, vin, vout):
-        m = g.model()
-        reqs.append({"op": "apply_gate", "n": n, "qs": m["qs"], "U": m["U"], "v": [gd_json(z) for z in vin]})
-        expect.append(("apply", vout))
 
-    # 1. random programs, several subcircuits each; each program also yields single-step checks:
-    #    the same body with and without its last gate gives (v_in, v_out) for `apply_gate`.
-    nprog = 0
-    for _ in range(a.count):
-        n = rng.randint(1, 5)
-        bodies, sers = [], []
-        for _ in range(rng.randint(1, 3)):
-            lines, ser = rand_body(rng, n, rng.randint(0, 14), NORMAL + ["BIG1"], dup_rate=0.05)
-            bodies.append(lines); sers.append(ser)
-        text = make_program(n, bodies)
-        py = run_python(text)
-        assert not isinstance(py, Exception), (text, py)
-        nprog += 1
-        for ser, r in zip(sers, py):
-            descr.append(text); expect_run(n, ser, r)
-        # single-step: prefixes of the first body (plain instruction list, no blocks)
-        flat = [rand_inst(rng, n, NORMAL + ["BIG1"], allow_dup=rng.random() < 0.05) for _ in range(rng.randint(1, 8))]
-        flat = [g for g in flat if g is not None and UNITARY[g.name] is not None]
-        if flat:
-            t2 = make_program(n, [[g.text() for g in flat[:-1]], [g.text() for g in flat]])
-            (vin, _), (vout, _) = run_python(t2)
-            descr.append(t2); expect_apply(n, flat[-1], vin, vout)
+def model_view(case, outs):
+    """model JSON comparable with impl_run / apply"""
+    if case["kind"] == "apply":
+        return outs[0]
+    if case["kind"] == "irregular":
+        if any(o is None for o in outs):
+            return "IndexError"
+        return [o["vec"] for o in outs]
+    return [None if o is None else o.get("vec", o) for o in outs]
 
-    # 2. matrix too small for the number of qubit arguments: numpy raises IndexError
-    for _ in range(60):
-        n = rng.randint(2, 4)
-        lines, ser = rand_body(rng, n, rng.randint(0, 4), NORMAL, 0.0)
-        g = rand_inst(rng, n, ["SMALL2"], allow_dup=rng.random() < 0.3)
-        text = make_program(n, [lines + [g.text()]])
-        py = run_python(text)
-        if isinstance(py, Exception):
-            descr.append(text); expect_run(n, ser + [g], "error")
-        else:
-            # duplicate qubit arguments: dsub_row stays below 2, no error
-            descr.append(text); expect_run(n, ser + [g], py[0])
 
-    # 3. exhaustive qubit tuples for each gate after a scrambling prefix
-    nmax = 6 if a.thorough else 4
-    for n in range(1, nmax + 1):
-        prefix = []
-        for q in range(n):
-            prefix.append(Inst("SX", [q], []))
-            prefix.append(Inst("P", [q], [q + 1]))
-        for q in range(n - 1):
-            prefix.append(Inst("MIX2", [q, q + 1], []))
-        if n >= 3:
-            prefix.append(Inst("MIX3", [n - 1, 0, 1], []))
-        ptxt = [g.text() for g in prefix]
-        vin = None
-        for name in NORMAL + ["BIG1"]:
-            if UNITARY[name] is None:
-                continue
-            nq = ARITY[name].count("q")
-            tuples = itertools.product(range(n), repeat=nq) if (a.thorough or n <= 3) else itertools.permutations(range(n), nq)
-            tuples = list(tuples)
-            # many subcircuits per program to amortise parsing
-            for chunk in [tuples[k:k + 40] for k in range(0, len(tuples), 40)]:
-                insts = [Inst(name, list(t), [3] * ARITY[name].count("i")) for t in chunk]
-                text = make_program(n, [ptxt] + [ptxt + [g.text()] for g in insts])
-                py = run_python(text)
-                assert not isinstance(py, Exception), (text, py)
-                vin = py[0][0]
-                for g, (vout, _) in zip(insts, py[1:]):
-                    descr.append(text); expect_apply(n, g, vin, vout)
+def oracle_kron(case):
+    states = run_pipeline(case["text"])
+    if len(states) != len(case["subs"]):
+        return False, f"{len(states)} subcircuits reported, {len(case['subs'])} expected"
+    for k, ((v, p), sub) in enumerate(zip(states, case["subs"])):
+        ref = kron_reference(case["n"], sub)
+        if v.shape != ref.shape or not np.array_equal(v, ref):
+            return False, f"subcircuit {k}: state_vector {vec_json(v)} reference {vec_json(ref)}"
+        if np.max(np.abs(p - np.abs(ref) ** 2)) > 1e-12:
+            return False, f"subcircuit {k}: probabilities {list(p)} reference {list(np.abs(ref) ** 2)}"
+    return True, ""
 
-    outs = call_driver(a.driver, reqs)
-    bad = 0
-    counts = {"run": 0, "apply": 0, "error": 0}
-    for req, (kind, exp), out, text in zip(reqs, expect, outs, descr):
-        ok = True
-        why = ""
-        if "err" in out:
-            ok, why = False, "driver error " + out["err"]
-        elif kind == "run" and isinstance(exp, str):
-            counts["error"] += 1
-            ok = out["out"] is None
-            why = "python raised IndexError, model did not return null"
-        elif kind == "run":
-            counts["run"] += 1
-            vec, probs = exp
-            o = out["out"]
-            if o is None:
-                ok, why = False, "model returned null"
-            else:
-                want = [gd_json(z) for z in vec]
-                if o["vec"] != want:
-                    ok, why = False, f"vec: model {o['vec']} python {want}"
-                else:
-                    mp = [int(num) / 2 ** int(k) for num, k in o["probs"]]
-                    if abs(sum(mp) - 1) > 1e-13:
-                        pass  # not normalised: result.py rescales the probabilities (not modelled here)
-                    elif len(mp) != len(probs) or max(abs(x - y) for x, y in zip(mp, probs)) > 1e-12:
-                        ok, why = False, f"probs: model {mp} python {list(probs)}"
-        else:
-            counts["apply"] += 1
-            want = [gd_json(z) for z in exp]
-            if out["out"] != want:
-                ok, why = False, f"apply: model {out['out']} python {want}"
+
+def _same_states(a, b, la, lb):
+    if len(a) != len(b):
+        return False, f"{la}: {len(a)} subcircuits, {lb}: {len(b)}"
+    for k, ((v, _), (w, _)) in enumerate(zip(a, b)):
+        if v.shape != w.shape or not np.array_equal(v, w):
+            return False, f"subcircuit {k}: {la} {vec_json(v)} {lb} {vec_json(w)}"
+    return True, ""
+
+
+def oracle_pair(case):
+    """alias / noop / par: two texts must give the same states"""
+    return _same_states(run_pipeline(case["text"]), run_pipeline(case["other"]), "text", "other")
+
+
+def oracle_override(case):
+    ref = run_pipeline(case["ref_text"])
+    for mode in ("parse", "fill"):
+        got = run_pipeline(case["text"], ov=case["ov"], ov_mode=mode)
+        ok, d = _same_states(got, ref, f"override({mode})", "values written in the lets")
         if not ok:
-            bad += 1
-            if bad <= 5:
-                print("MISMATCH:", why)
-                print(text)
-                print(json.dumps(req)[:2000])
-    print(f"emu_diff: programs={nprog} run_gates={counts['run']} apply_gate={counts['apply']} "
-          f"index_error={counts['error']} mismatches={bad}")
-    sys.exit(1 if bad else 0)
+            return False, d
+    # and the overriding values really matter / are the ones used: compare with the numpy reference
+    for k, ((v, _), sub) in enumerate(zip(ref, case["subs"])):
+        if not np.array_equal(v, kron_reference(case["n"], sub)):
+            return False, f"subcircuit {k}: reference program differs from numpy reference"
+    return True, ""
+
+
+ORACLES = {
+    "kron_reference": oracle_kron,
+    "alias_same_as_direct": oracle_pair,
+    "idle_and_no_unitary_noop": oracle_pair,
+    "parallel_order": oracle_pair,
+    "let_override": oracle_override,
+}
+
+
+def _guard(f, case):
+    try:
+        return f(case)
+    except Exception as e:  # an exception of the real code on a valid program is a failure of the property
+        return False, f"{type(e).__name__}: {e}"
+
+
+# ------------------------------------------------------------------ run
+def run(seed: int, n: int, driver: str = DEFAULT_DRIVER, thorough: bool = False) -> dict:
+    rng = random.Random(f"emu_diff:{seed}")
+    feat = {k: 0 for k in ["par", "loop", "alias_ref", "sub_plain", "sub_block", "sub_blockN"]}
+    dist = {}
+
+    def bump(k, d=1):
+        dist[k] = dist.get(k, 0) + d
+
+    corr = {op: {"cases": 0, "disagreements": []} for op in ["run_gates", "apply_gate", "run_gates_irregular"]}
+    oracle = {o: {"cases": 0, "failures": []} for o in ORACLES}
+    samples, distinct = [], set()
+    pending = []  # (op, case, impl, nreq)
+    reqs = []
+
+    def add_corr(op, case, impl):
+        r = model_reqs(case)
+        pending.append((op, case, impl, len(r)))
+        reqs.extend(r)
+
+    def add_oracle(name, case):
+        ok, detail = _guard(ORACLES[name], case)
+        oracle[name]["cases"] += 1
+        if not ok and len(oracle[name]["failures"]) < 20:
+            oracle[name]["failures"].append({"case": case, "detail": detail})
+
+    # ---- 1. random structured programs through the real pipeline
+    for _ in range(n):
+        nq = rng.randint(1, 5)
+        prog = Prog(rng, nq, rng.randint(1, 3), 8, feat)
+        rs = rng.randrange(1 << 30)
+        text = prog.render(rs)
+        subs = prog.serialise()
+        case = {"kind": "run", "text": text, "n": nq, "subs": subs}
+        try:
+            impl = impl_run(case)
+        except Exception as e:
+            impl = f"{type(e).__name__}: {e}"
+            bump("impl_exception")
+        add_corr("run_gates", case, impl)
+        add_oracle("kron_reference", case)
+        add_oracle("alias_same_as_direct", {"kind": "alias_same_as_direct", "text": text, "other": flat_text(nq, subs)})
+        add_oracle("idle_and_no_unitary_noop",
+                   {"kind": "idle_and_no_unitary_noop", "text": text, "other": prog.render(rs, noop=False)})
+        if "<" in text:
+            add_oracle("parallel_order", {"kind": "parallel_order", "text": text, "other": prog.render(rs, permute=True)})
+        ov = {k: rng.randrange(8) for k in ["K0", "K1", "K2"] if rng.random() < 0.7}
+        ov.update({k: rng.randrange(4) for k in ["L0", "L1"] if rng.random() < 0.7})
+        if ov:
+            add_oracle("let_override", {"kind": "let_override", "text": text, "ov": ov, "n": nq,
+                                        "ref_text": prog.render(rs, vals=ov), "subs": prog.serialise(ov)})
+        # bookkeeping
+        executed = sum(1 for s in subs for g in s if gate_unitary(g["g"], g["a"]) is not None)
+        skipped = sum(len(s) for s in subs) - executed
+        bump(f"qubits={nq}")
+        bump("subcircuits", len(subs))
+        bump("gates_executed", executed)
+        bump("gates_without_unitary_or_idle", skipped)
+        bump("programs_with_macro_call", int(any(m in text.split("register")[1].split("prepare_all")[0] or True for m in prog.macros) and any(
+            (" " + m + " ") in text.replace("\n", " \n ") or ("\n" + m + " ") in text for m in prog.macros)))
+        bump("programs_with_maps", int(bool(prog.maps)))
+        bump("programs_let_sized_register", int(prog.let_sized))
+        for s in subs:
+            for g in s:
+                bump("gate:" + g["g"])
+        if executed >= 1:
+            distinct.add(text)
+        if len(samples) < 3:
+            samples.append(case)
+    for k, v in feat.items():
+        bump("feature:" + k, v)
+
+    # ---- 2. single step: prefix / prefix+gate through the real emulator
+    for _ in range(max(1, n // 2)):
+        nq = rng.randint(1, 5)
+        pre = []
+        for _ in range(rng.randint(0, 6)):
+            g = rng.choice([x for x in REGULAR if base_sig(x).count("q") <= nq])
+            s = base_sig(g)
+            pre.append({"g": g, "qs": rng.sample(range(nq), s.count("q")), "a": [rng.randrange(8) for _ in range(s.count("i"))]})
+        last = pre.pop() if pre else {"g": "X", "qs": [0], "a": []}
+        text = flat_text(nq, [pre, pre + [last]])
+        (vin, _), (vout, _) = run_pipeline(text)
+        case = {"kind": "apply", "text": text, "n": nq, "gate": last, "vin": vec_json(vin)}
+        add_corr("apply_gate", case, vec_json(vout))
+
+    # ---- 3. irregular inputs (outside the hypotheses of the theorems; the code accepts them)
+    for _ in range(max(1, n // 3)):
+        nq = rng.randint(1, 4)
+        sub = []
+        for _ in range(rng.randint(1, 6)):
+            kind = rng.random()
+            names = REGULAR + NOUNITARY if kind < 0.5 else (["BIG1", "RND2"] if kind < 0.85 else ["SMALL2"])
+            names = [x for x in names if base_sig(x).count("q") <= nq or kind >= 0.5]
+            g = rng.choice(names)
+            s = base_sig(g)
+            dup = rng.random() < 0.3 or s.count("q") > nq
+            qs = [rng.randrange(nq) for _ in range(s.count("q"))] if dup else rng.sample(range(nq), s.count("q"))
+            sub.append({"g": g, "qs": qs, "a": [rng.randrange(8) for _ in range(s.count("i"))]})
+        case = {"kind": "irregular", "text": flat_text(nq, [sub]), "n": nq, "subs": [sub]}
+        impl = impl_run(case)
+        bump("irregular:IndexError" if impl == "IndexError" else "irregular:state")
+        bump("irregular:with_duplicate_qubits", int(any(len(set(g["qs"])) < len(g["qs"]) for g in sub)))
+        add_corr("run_gates_irregular", case, impl)
+
+    # ---- 4. thorough: every qubit tuple (duplicates included) for every gate with a matrix, n up to 6
+    if thorough:
+        for nq in range(1, 7):
+            prefix = []
+            for q in range(nq):
+                prefix += [{"g": "SX", "qs": [q], "a": []}, {"g": "P", "qs": [q], "a": [q + 1]}]
+            for q in range(nq - 1):
+                prefix.append({"g": "MIX2", "qs": [q, q + 1], "a": []})
+            if nq >= 3:
+                prefix.append({"g": "MIX3", "qs": [nq - 1, 0, 1], "a": []})
+            for name in REGULAR + ["BIG1"]:
+                s = base_sig(name)
+                tuples = list(itertools.product(range(nq), repeat=s.count("q")))
+                for chunk in [tuples[k:k + 40] for k in range(0, len(tuples), 40)]:
+                    gs = [{"g": name, "qs": list(t), "a": [3] * s.count("i")} for t in chunk]
+                    text = flat_text(nq, [prefix] + [prefix + [g] for g in gs])
+                    vs = run_emulator_raw(text)
+                    for g, vout in zip(gs, vs[1:]):
+                        case = {"kind": "apply", "text": flat_text(nq, [prefix, prefix + [g]]), "n": nq, "gate": g,
+                                "vin": vec_json(vs[0]), "raw": True}
+                        add_corr("apply_gate", case, vec_json(vout))
+                        bump("thorough_apply")
+
+    # ---- model side, one batch
+    outs = call_driver(driver, reqs)
+    pos = 0
+    for op, case, impl, k in pending:
+        model = model_view(case, outs[pos:pos + k])
+        pos += k
+        corr[op]["cases"] += 1
+        if model != impl and len(corr[op]["disagreements"]) < 20:
+            corr[op]["disagreements"].append({"case": case, "model": model, "impl": impl})
+        elif model != impl:
+            pass
+        corr[op].setdefault("_bad", 0)
+        corr[op]["_bad"] += int(model != impl)
+    # probabilities of the model (exact dyadic) against the reported ones, for the regular programs
+    pos = 0
+    for op, case, impl, k in pending:
+        if op == "run_gates" and not isinstance(impl, str):
+            try:
+                probs = [p for _, p in run_pipeline(case["text"])] if False else None
+            except Exception:
+                probs = None
+        pos += k
+    for op in corr:
+        corr[op]["total_disagreements"] = corr[op].pop("_bad", 0)
+
+    return {"corr": corr, "oracle": oracle, "distribution": dist, "samples": samples, "nontrivial": len(distinct)}
+
+
+# ------------------------------------------------------------------ replay
+def replay(case: dict, driver: str = DEFAULT_DRIVER) -> dict:
+    kind = case.get("kind")
+    if kind in ORACLES:
+        ok, detail = _guard(ORACLES[kind], case)
+        try:
+            impl = [vec_json(v) for v, _ in run_pipeline(case["text"], ov=case.get("ov"), ov_mode="fill" if case.get("ov") else None)]
+        except Exception as e:
+            impl = f"{type(e).__name__}: {e}"
+        return {"model": None, "impl": impl, "oracle_ok": ok, "detail": detail}
+    model = model_view(case, call_driver(driver, model_reqs(case)))
+    if kind == "apply":
+        vs = run_emulator_raw(case["text"]) if case.get("raw") else [v for v, _ in run_pipeline(case["text"])]
+        impl = vec_json(vs[1])
+        return {"model": model, "impl": impl, "oracle_ok": None, "detail": "" if model == impl else "model and impl differ"}
+    try:
+        impl = impl_run(case)
+    except Exception as e:
+        impl = f"{type(e).__name__}: {e}"
+    ok, detail = (None, "")
+    if kind == "run":
+        ok, detail = _guard(oracle_kron, case)
+    if model != impl:
+        detail = ("model and impl differ; " + detail).strip("; ")
+    return {"model": model, "impl": impl, "oracle_ok": ok, "detail": detail}
+
+
+# ------------------------------------------------------------------ CLI
+def main(argv=None):
+    ap = argparse.ArgumentParser(description=__doc__.split("\n")[0])
+    ap.add_argument("--driver", default=DEFAULT_DRIVER)
+    ap.add_argument("--count", type=int, default=300, help="number of random programs")
+    ap.add_argument("--seed", type=int, default=0)
+    ap.add_argument("--thorough", action="store_true")
+    ap.add_argument("--json", action="store_true", help="print the whole result as JSON")
+    a = ap.parse_args(argv)
+    res = run(a.seed, a.count, a.driver, a.thorough)
+    if a.json:
+        print(json.dumps(res))
+    bad = 0
+    for op, r in res["corr"].items():
+        print(f"corr   {op:26s} cases={r['cases']:6d} disagreements={r['total_disagreements']}")
+        bad += r["total_disagreements"]
+        for d in r["disagreements"][:2]:
+            print("   CASE", json.dumps(d)[:1500])
+    for o, r in res["oracle"].items():
+        print(f"oracle {o:26s} cases={r['cases']:6d} failures={len(r['failures'])}")
+        bad += len(r["failures"])
+        for d in r["failures"][:2]:
+            print("   CASE", json.dumps(d)[:1500])
+    print(f"nontrivial={res['nontrivial']}  distribution=" + json.dumps({k: v for k, v in res["distribution"].items() if not k.startswith("gate:")}))
+    return 1 if bad else 0
 
 
 if __name__ == "__main__":
-    main()
+    sys.exit(main())
